@@ -104,6 +104,47 @@ def gen_scripted(rng, style=None, n_ops=None, allow_then=True) -> dict:
     return case
 
 
+LONG_GENERATIONS = [100, 127, 128, 129, 200, 256, 257, 300, 1000]   # around / beyond powers of two and typical buffer sizes
+
+
+def gen_long(rng, G: int) -> dict:
+    """max_generations = G is the ONLY limit; one cheap stub operator reports a count and a result per application.  The
+    script holds G + 2 applications: an implementation that honours the limit uses exactly G of them and returns; one
+    that does not starts generation G + 1 (reported by the oracle) and is aborted by ScriptExhausted two applications
+    later.  Stored compactly (key "long"); expand_case() produces the applications."""
+    return dict(kind="scripted", style="long", n_ops=1, n_qubits=3, max_generations=G, max_evals=None, criterion=None,
+                init=rng.choice([None, 5]), aux=None, pop0=0, estimates=[],
+                long=dict(applications=G + 2, count=rng.choice([1, 3]), salt=rng.randrange(1000)))
+
+
+def gen_big_budget(rng) -> dict:
+    """max_circuit_evaluations large (> 10^4) is the only limit; cheap stubs report thousands of evaluations each."""
+    B = rng.choice([10001, 16384, 16385, 32768, 65536, 65537, 10**6])
+    n_ops = rng.randint(1, 3)
+    apps, total, rid = [], 0, 0
+    while total < B + B // 2 and len(apps) < 60:
+        c = rng.choice([B // 7 + 1, B // 3, 4096, 9999, B // 2 + 1])
+        evs = [["count", c]]
+        total += c
+        if rng.random() < 0.5:
+            evs.append(["result", rid, rng.randrange(8), rng.choice(VALUES)])
+            rid += 1
+        apps.append(dict(events=evs, ret=len(apps) + 1))
+    est = rng.choice([[], [None, B // 5, None, 100], [B, 0]])
+    return dict(kind="scripted", style="big-budget", n_ops=n_ops, n_qubits=3, max_generations=None, max_evals=B, criterion=None,
+                init=None, aux=None, pop0=0, apps=apps, estimates=[rng.choice(est) if est else None for _ in range(len(apps) if est else 0)])
+
+
+def expand_case(case: dict) -> dict:
+    """The runnable form of a compactly stored case (key "long" -> the applications it stands for)."""
+    if "long" not in case or "apps" in case:
+        return case
+    lg = case["long"]
+    apps = [dict(events=[["count", lg["count"]], ["result", i, (i + lg["salt"]) % 8, VALUES[(7 * i + lg["salt"]) % len(VALUES)]]], ret=i + 1)
+            for i in range(lg["applications"])]
+    return dict(case, apps=apps)
+
+
 def enumerate_small(max_events=4):
     """All scripts over the alphabet {count 2, result(value 1), result(value 0)} with up to `max_events` events split
     into applications of one operator list of 2 operators, under every small limit combination (thorough tier)."""
@@ -166,7 +207,7 @@ def g_case(case: dict, obs: dict) -> str:
             _, op, pop, ledger, ngen, est = it
             starts.append("(" + ", ".join([
                 g_nat(op), g_z(pop),
-                g_opt(None if ledger is None else g_list(g_z(x) for x in ledger)),
+                g_opt(None if (ledger is None or case.get("style") == "long") else g_list(g_z(x) for x in ledger)),   # long runs: O(G^2) text
                 g_opt(None if ngen is None else g_nat(ngen)),
                 g_opt(None if est is None else g_z(est))]) + ")")
     crits = [f"({g_z(it[1])}, {g_z(it[2])}, {g_q(it[3])}, {g_bool(it[4])})" for it in obs["items"] if it[0] == "crit"]
@@ -389,14 +430,20 @@ def has_limit(case) -> bool:
     return any(case.get(k) is not None for k in ("max_generations", "max_evals", "criterion", "real_criterion"))
 
 
+def _trim(items, keep=60):
+    """Replay files of long runs: the first and last items only (the replay re-runs the case anyway)."""
+    return items if len(items) <= 2 * keep else items[:keep] + [["...", len(items) - 2 * keep, "items omitted"]] + items[-keep:]
+
+
 def run_scripted_case(ctx, pid: str, case: dict, strict_multi: bool):
     """Run one scripted case (and its "then" case with the same solver object) on the implementation, evaluate the clauses
     of property `pid` on every solve against the limits in force when that solve was called.
     Returns a list of (obs, gallina literal | None), one per solve; [] if the harness objects failed."""
+    stored, case = case, expand_case(case)     # `stored` (compact) is what goes into replay files
     try:
         obs_all = sk.run_scripted(case)
     except Exception as e:  # the harness objects themselves failed: report as an implementation exception
-        ctx.violation("oracle", f"harness-exception-{type(e).__name__}", f"scripted run raised outside the solver: {type(e).__name__}: {e}", case)
+        ctx.violation("oracle", f"harness-exception-{type(e).__name__}", f"scripted run raised outside the solver: {type(e).__name__}: {e}", stored)
         return []
     solves = [(case, obs_all)] + ([(case["then"], obs_all["then"])] if "then" in obs_all else [])
     res = []
@@ -409,15 +456,15 @@ def run_scripted_case(ctx, pid: str, case: dict, strict_multi: bool):
         out = obs["outcome"]
         single = is_single_result(obs["items"])
         if "err" in out and out["err"] not in (NOTHING, "ScriptExhausted", "Boom"):
-            ctx.violation("oracle", f"unexpected-exception-{out['err']}", f"solve raised {out['err']}: {out.get('msg')}{nth}", case)
+            ctx.violation("oracle", f"unexpected-exception-{out['err']}", f"solve raised {out['err']}: {out.get('msg')}{nth}", stored)
         if pid == "C05":
             bad = oracle_c05(limits_of(c), obs, strict_shape=False) + oracle_c05_tokens(c, obs)
         else:
             bad = oracle_c12(limits_of(c), obs, protocol_only=not strict_multi)
         for key, msg in bad:
-            ctx.violation("oracle", key, msg + nth, case, detail=dict(items=obs["items"], outcome=out, solve=which))
+            ctx.violation("oracle", key, msg + nth, stored, detail=dict(items=_trim(obs["items"]), outcome=out, solve=which))
         if c.get("criterion") is not None and obs.get("criterion_resets") != 1:
-            ctx.violation("correspondence", "criterion-reset", f"the criterion was reset {obs.get('criterion_resets')} times in one solve (the model assumes: once, at the start)", case)
+            ctx.violation("correspondence", "criterion-reset", f"the criterion was reset {obs.get('criterion_resets')} times in one solve (the model assumes: once, at the start)", stored)
         ctx.tally(f"scripted:{c.get('style')}")
         ctx.tally("outcome:" + ("ok" if "ok" in out else out["err"]))
         ctx.tally("limits:" + "+".join(k for k, v in (("gen", c.get("max_generations")), ("evals", c.get("max_evals")), ("crit", c.get("criterion"))) if v is not None))
@@ -608,6 +655,7 @@ RULE = ("scripted operators (subclasses of BaseEvolutionaryOperator replaying a 
         "OperatorContext callbacks of the real _solve_by_evolution, reached through compute_minimum_function_value) x all "
         "combinations of max_generations / max_circuit_evaluations / estimates / scripted criterion, three styles "
         "(EVQE-shaped, arbitrary with <=1 result per application, arbitrary with several); plus real EVQE runs with "
+        "long stub runs with max_generations (100..2000, around powers of two) resp. max_circuit_evaluations (> 10^4) as the only limit; "
         "deterministic fake primitives and optimiser over random small configurations, recorded by rebinding methods on the "
         "operator instances; distinct = distinct (limits, script) resp. EVQE setup; non-trivial = at least one operator "
         "application started or the run raised for lack of an evaluation under a limit")
@@ -642,6 +690,16 @@ def run_property(ctx, pid: str, strict_multi: bool, n_scripted, n_evqe, enum_eve
             evqe(ctx, pid, c["setup"], glits, kept, strict_multi)
     for _ in range(n_scripted):
         scripted(gen_scripted(ctx.rng))
+    # long runs: max_generations the only limit, around and beyond powers of two / typical buffer sizes; big budgets
+    if ctx.quick:
+        gens = [129, 257, ctx.rng.choice([100, 127, 128, 200, 256, 300])]
+    else:
+        gens = LONG_GENERATIONS + [ctx.rng.randint(301, 2000) for _ in range(3)]
+    for G in gens:
+        scripted(gen_long(ctx.rng, G))
+        ctx.tally(f"long-run:max_generations={G}")
+    for _ in range(ctx.n(6, 40)):
+        scripted(gen_big_budget(ctx.rng))
     if enum_events:
         n0 = len(glits)
         for c in enumerate_small(enum_events):
